@@ -380,6 +380,123 @@ func genC16(g *gen) {
 	}
 	g.line("Definition gen_unregistered_connection_still_notifies_disconnect : bool := %s.", coqBool(staleOK))
 
+	// ---- addressing of OPEN replies at the endpoints: (peer, STREAM id, REQUEST id)
+	openErrOK := func(file string) (bool, int) {
+		f := parseFile(file)
+		ok, n := true, 0
+		if f == nil {
+			return false, 0
+		}
+		ast.Inspect(f, func(nd ast.Node) bool {
+			call, isCall := nd.(*ast.CallExpr)
+			if !isCall {
+				return true
+			}
+			fn := src(call.Fun)
+			switch {
+			case strings.HasSuffix(fn, ".sendOpenErr") && len(call.Args) >= 3:
+				n++
+				if src(call.Args[1]) != "streamID" || src(call.Args[2]) != "requestID" {
+					ok = false
+				}
+			case strings.HasSuffix(fn, ".WriteStreamOpenErr") && len(call.Args) >= 3:
+				n++
+				if src(call.Args[1]) != "streamID" || src(call.Args[2]) != "requestID" {
+					ok = false
+				}
+			case strings.HasSuffix(fn, ".WriteStreamOpenAck") && len(call.Args) >= 3:
+				n++
+				if src(call.Args[1]) != "streamID" || src(call.Args[2]) != "requestID" {
+					ok = false
+				}
+			}
+			return true
+		})
+		return ok, n
+	}
+	for _, h := range []struct{ name, file string }{{"exit", "internal/exit/handler.go"}, {"forward", "internal/forward/handler.go"}} {
+		ok, n := openErrOK(h.file)
+		if !ok || n < 3 {
+			g.note("%s handler: an OPEN reply call does not pass (streamID, requestID) in that order (%d call sites)", h.name, n)
+		}
+		g.line("Definition gen_%s_open_replies_pass_stream_then_request_id : bool := %s.", h.name, coqBool(ok && n >= 3))
+	}
+	// udp / icmp exit handlers: Write*OpenErr(peerID, streamID, &...{RequestID: open.RequestID ...})
+	typedErrOK := func(file, method string) bool {
+		f := parseFile(file)
+		ok, n := true, 0
+		if f == nil {
+			return false
+		}
+		ast.Inspect(f, func(nd ast.Node) bool {
+			call, isCall := nd.(*ast.CallExpr)
+			if !isCall || !strings.HasSuffix(src(call.Fun), "."+method) || len(call.Args) != 3 {
+				return true
+			}
+			n++
+			flat := strings.NewReplacer(" ", "", "\t", "", "\n", "").Replace(src(call.Args[2]))
+			a1 := src(call.Args[1])
+			if (a1 != "streamID" && a1 != "assoc.StreamID" && a1 != "session.StreamID") || !strings.Contains(flat, "RequestID:open.RequestID") {
+				ok = false
+			}
+			return true
+		})
+		return ok && n > 0
+	}
+	g.line("Definition gen_udp_open_err_addressed_by_stream_and_request : bool := %s.", coqBool(typedErrOK("internal/udp/handler.go", "WriteUDPOpenErr")))
+	g.line("Definition gen_icmp_open_err_addressed_by_stream_and_request : bool := %s.", coqBool(typedErrOK("internal/icmp/handler.go", "WriteICMPOpenErr")))
+	// the agent's StreamWriter puts the stream id in the frame header and the request id in the payload
+	wOK := false
+	if fd := findFunc(af, "Agent", "WriteStreamOpenErr"); fd != nil {
+		flat := strings.NewReplacer(" ", "", "\t", "", "\n", "").Replace(src(fd.Body))
+		wOK = strings.Contains(flat, "RequestID:requestID") && strings.Contains(flat, "StreamID:streamID")
+	}
+	g.line("Definition gen_agent_open_err_writer_maps_ids : bool := %s.", coqBool(wOK))
+
+	// ---- which (peer, id) a relayed frame is forwarded to, per direction:
+	// from upstream -> (DownstreamPeer, DownstreamID); from downstream -> (UpstreamPeer, UpstreamID)
+	fwdOK := func(file, fn string) bool {
+		fd := findFunc(parseFile(file), "Agent", fn)
+		if fd == nil {
+			return false
+		}
+		flat := strings.NewReplacer(" ", "", "\t", "", "\n", "").Replace(src(fd.Body))
+		switch {
+		case strings.Contains(flat, "PopMatchingPeer("):
+			// close / reset shape
+			a1 := strings.Contains(flat, "dstPeer,dstID:=entry.UpstreamPeer,entry.UpstreamID") && strings.Contains(flat, "iffromUpstream{dstPeer,dstID=entry.DownstreamPeer,entry.DownstreamID}")
+			a2 := strings.Contains(flat, "iffromUpstream{dstPeer=entry.DownstreamPeerdstID=entry.DownstreamID}else{dstPeer=entry.UpstreamPeerdstID=entry.UpstreamID}")
+			return (a1 || a2) && strings.Contains(flat, "StreamID:dstID") && strings.Contains(flat, "SendToPeer(dstPeer,fwdFrame)")
+		case strings.Contains(flat, "LookupBoth("):
+			up := "upRelay"
+			down := "downRelay"
+			if strings.Contains(flat, "relayUp,relayDown:=") {
+				up, down = "relayUp", "relayDown"
+			}
+			return strings.Contains(flat, "StreamID:"+up+".DownstreamID") && strings.Contains(flat, "SendToPeer("+up+".DownstreamPeer,fwdFrame)") &&
+				strings.Contains(flat, "StreamID:"+down+".UpstreamID") && strings.Contains(flat, "SendToPeer("+down+".UpstreamPeer,fwdFrame)")
+		}
+		return false
+	}
+	for _, h := range []struct{ file, fn string }{
+		{"internal/agent/agent.go", "handleStreamData"}, {"internal/agent/agent.go", "handleStreamClose"}, {"internal/agent/agent.go", "handleStreamReset"},
+		{"internal/agent/udp.go", "handleUDPDatagram"}, {"internal/agent/udp.go", "handleUDPClose"},
+		{"internal/agent/icmp.go", "handleICMPEcho"}, {"internal/agent/icmp.go", "handleICMPClose"},
+	} {
+		ok := fwdOK(h.file, h.fn)
+		if !ok {
+			g.note("%s: forwarding target (peer, id) per direction not recognised", h.fn)
+		}
+		g.line("Definition gen_forward_ids_%s : bool := %s.", h.fn, coqBool(ok))
+	}
+	// UDP ingress: a refused UDP_OPEN removes the refused association's own mesh stream
+	uiOK := false
+	if fd := findFunc(parseFile("internal/agent/udp.go"), "Agent", "handleUDPOpenErr"); fd != nil {
+		flat := strings.NewReplacer(" ", "", "\t", "", "\n", "").Replace(src(fd.Body))
+		uiOK = strings.Contains(flat, "delete(a.udpIngressByLocalStream,dest.StreamID)") && strings.Count(flat, "delete(a.udpIngressByLocalStream,") == 1
+	}
+	g.line("Definition gen_udp_open_err_removes_own_mesh_stream : bool := %s.", coqBool(uiOK))
+
 	// handleStreamData: order in which the local endpoints are tried after the relay lookup
 	// codes: 1 relay, 2 exit, 3 forward, 4 file transfer, 5 shell server, 6 shell client, 7 stream manager
 	var order []string
